@@ -253,7 +253,9 @@ def check(codec, d, family, c=None, variant=0, wseed=0):
     count('tree_ok_evals')
     for clause, detail in TM.tree_ok([back]):
       problems.append(('tree-' + clause, detail))
-    if isinstance(v, pg.Symbolic) and TM.shape([v]) != TM.shape([back]):
+    spec_dropped = codec == 'pickle' and d[0] in ('TD', 'TL')
+    if (isinstance(v, pg.Symbolic) and not spec_dropped
+        and TM.shape([v]) != TM.shape([back])):
       problems.append(('tree-shape-differs', f'{TM.shape([v])} -> {TM.shape([back])}'))
   if problems:
     return first_per_clause(problems)
